@@ -41,6 +41,10 @@ type config struct {
 	// (1 GetWriter().Close(), 2 GetWriterBy(severity).Close()). The statement does not say whether a closed list
 	// still delivers; the call must return normally all the same, and nobody may get the record twice or in part
 	ClosedFirst int
+	// AsList: the normal (1, 3) or error (2) writers are handed over as ONE value of the exported list type slog.LWs:
+	// 1, 2 a hand-made list of NewLogWriter handles; 3 what GetWriter() of another logger returns. Every member must
+	// still receive the record in exactly one Write
+	AsList int
 }
 
 var flagChoices = []slog.Flags{slog.Lcaller, slog.LattrsR, slog.Ldate, slog.Ltime, slog.Lmicroseconds, slog.Lprivacypath,
@@ -67,6 +71,10 @@ func genConfig() *rapid.Generator[config] {
 		c.Removed = rapid.SampledFrom([]int{0, 0, 0, 1, 2, 3}).Draw(t, "addedThenRemoved")
 		c.RemovedKind = rapid.IntRange(0, 3).Draw(t, "removedKind")
 		c.ClosedFirst = rapid.SampledFrom([]int{0, 0, 0, 0, 0, 1, 2}).Draw(t, "closedFirst")
+		c.AsList = rapid.SampledFrom([]int{0, 0, 0, 0, 1, 2, 3}).Draw(t, "writersAsOneList")
+		if c.AddOnly || c.Removed != 0 || c.ClosedFirst != 0 {
+			c.AsList = 0
+		}
 		if c.AddOnly {
 			c.ClosedFirst = 0 // those lists hold the standard devices: closing them is for good (and makes their writes fail: C13)
 		}
@@ -130,6 +138,26 @@ func run(t vlib.TB, test string, c config, k call) {
 	var normals, errs, lvls []int
 	extra := vlib.NewRec(log, 100, c.RemovedKind) // the writer that is added and removed again (c.Removed)
 	addNormals := func() {
+		if c.AsList == 1 || c.AsList == 3 {
+			var list slog.LWs
+			lender := slog.New("lender")
+			for i := 0; i < c.NNormal; i++ {
+				w := next()
+				normals = append(normals, w.ID())
+				list = append(list, slog.NewLogWriter(w))
+				if i == 0 {
+					lender.SetWriter(w)
+				} else {
+					lender.AddWriter(w)
+				}
+			}
+			if c.AsList == 3 {
+				lg.SetWriter(lender.GetWriter())
+			} else {
+				lg.SetWriter(list)
+			}
+			return
+		}
 		for i := 0; i < c.NNormal; i++ {
 			w := next()
 			if i == 0 && !c.AddOnly {
@@ -147,6 +175,16 @@ func run(t vlib.TB, test string, c config, k call) {
 		}
 	}
 	addErrors := func() {
+		if c.AsList == 2 {
+			var list slog.LWs
+			for i := 0; i < c.NError; i++ {
+				w := next()
+				errs = append(errs, w.ID())
+				list = append(list, slog.NewLogWriter(w))
+			}
+			lg.SetErrorWriter(list)
+			return
+		}
 		for i := 0; i < c.NError; i++ {
 			w := next()
 			if i == 0 && !c.AddOnly {
@@ -217,8 +255,8 @@ func run(t vlib.TB, test string, c config, k call) {
 		want = nil
 	}
 
-	where := fmt.Sprintf("%s severity=%v logger{level=%v format=%s child=%v attrs=%v flags=%#x addOnly=%v addedThenRemoved=%d(kind %d, writer 100) writersClosedFirst=%d} msg=%s args=[%s] println=%s",
-		k.EP.Name, k.R, c.L, c.Format, c.Child, c.LoggerAttrs, int64(slog.GetFlags()), c.AddOnly, c.Removed, c.RemovedKind, c.ClosedFirst, vlib.Short(k.Msg), describeArgs(k.Args.Args), k.PrintlnMode)
+	where := fmt.Sprintf("%s severity=%v logger{level=%v format=%s child=%v attrs=%v flags=%#x addOnly=%v addedThenRemoved=%d(kind %d, writer 100) writersClosedFirst=%d writersAsOneList=%d} msg=%s args=[%s] println=%s",
+		k.EP.Name, k.R, c.L, c.Format, c.Child, c.LoggerAttrs, int64(slog.GetFlags()), c.AddOnly, c.Removed, c.RemovedKind, c.ClosedFirst, c.AsList, vlib.Short(k.Msg), describeArgs(k.Args.Args), k.PrintlnMode)
 
 	func() {
 		defer func() {
